@@ -4,18 +4,30 @@
 use std::path::Path;
 use std::sync::RwLock;
 
-pub use crate::bitvec;
+pub mod bitvec {
+    pub use crate::bitvec::*;
+}
 pub use crate::disk_store::verif_exports::{BlobWriter, FileBlobWriter, PartitionSegment, VersionedChecksummedBlobWriter};
 pub use crate::disk_store::meta_store::{MetaStore, PartitionMetadata, SubpartitionMetadata};
 pub use crate::disk_store::storage::{verif_partition_filename, verif_sanitize_table_name, Storage};
 pub use crate::disk_store::wal_segment::WalSegment;
-pub use crate::engine;
-pub use crate::ingest;
-pub use crate::mem_store;
+pub mod engine {
+    pub use crate::engine::*;
+}
+pub mod ingest {
+    pub use crate::ingest::*;
+}
+pub mod mem_store {
+    pub use crate::mem_store::*;
+}
 pub use crate::scheduler::inner_locustdb::{verif_is_filesystem_safe, verif_subpartition};
 pub use crate::scheduler::InnerLocustDB;
-pub use crate::stringpack;
-pub use crate::syntax;
+pub mod stringpack {
+    pub use crate::stringpack::*;
+}
+pub mod syntax {
+    pub use crate::syntax::*;
+}
 
 type FsCallback = Box<dyn Fn(&str, &Path, &[u8]) + Send + Sync>;
 type SyncCallback = Box<dyn Fn(&str) + Send + Sync>;
